@@ -68,7 +68,11 @@ def run(p, led, tier):
         raise AnchorError("no call of a CascadeStage.processor found in the package")
     runfi = p.method("Cascade", "run")
 
+    seq_fns = {g.key for g in res.reachable_from(runfi)}       # the sequential pipeline: decided semantically below
+    _sequential_table(p, led, tier, cascade, runfi)
     for fi, pc in proc_calls:
+        if fi.key in seq_fns:
+            continue
         cfg = cfg_of(fi, led)
         pn = cfg.node_of(pc)
         recv = src(pc.func.value)
@@ -136,47 +140,10 @@ def run(p, led, tier):
             else:
                 led.ok("C19-R1", k2, where(fi, pc), f"both take `{pa}` and no assignment to it lies between them")
 
-    # ---------------- R2 halting (Cascade.run)
-    cfg = cfg_of(runfi, led)
-    loops = [n for n in walk_no_nested(runfi.node) if isinstance(n, ast.For) and mentions_attr(n.iter, "_stages")]
-    if len(loops) != 1:
-        raise AnchorError(f"Cascade.run: expected one loop over the stages, found {len(loops)}")
-    head = cfg.node_of(loops[0].iter)
-    halt_attr = "self.halt_on_failure"
-    if not any(mentions_attr(n.ast, "halt_on_failure") for n in cfg.nodes if n.kind == "test"):
-        raise AnchorError("Cascade.run no longer tests halt_on_failure")
-    run_proc = [(fi, c) for fi, c in proc_calls if fi is runfi]
-    run_gates = [c for c in calls_named(runfi.node, "checkpoint")]
-    completed_nodes = {n for n in cfg.nodes if n.ast is not None and n.kind == "stmt" and "StageStatus.COMPLETED" in src(n.ast)}
-    for g in run_gates:
-        gn = cfg.node_of(g)
-        if gn.kind != "test":
-            continue
-        false_lab = [lab for lab in ("T", "F") for atom, pol in edge_facts(gn.ast, lab) if atom is g and pol is False]
-        for kind, labs in (("gate returned false", false_lab), ("gate raised", ["exc"])):
-            starts = [(gn, m, l) for m, l in gn.succ if l in labs]
-            r = walk_folded(cfg, starts, {halt_attr: {True}})
-            key = f"Cascade.run ▸ halt ▸ {kind}"
-            bad = [n for n in [head] + [cfg.node_of(c) for _, c in run_proc] if n in r]
-            if bad:
-                led.fail("C19-R2", key, where(runfi, g), "with halt_on_failure=True control continues to " + ("the next stage" if bad[0] is head else "this stage's processor"),
-                         path=cfg.fmt_path(folded_path(r, bad[0])))
-            else:
-                led.ok("C19-R2", key, where(runfi, g), "folding halt_on_failure=True: neither the loop head nor a processor call is reachable")
-    for fi, pc in run_proc:
-        pn = cfg.node_of(pc)
-        starts = [(pn, m, l) for m, l in pn.succ if l == "exc"]
-        # the stage variable: receiver of the processor call
-        recv = src(pc.func.value)
-        r = walk_folded(cfg, starts, {halt_attr: {True}, f"{recv}.required": {True}}, avoid=completed_nodes)
-        key = "Cascade.run ▸ halt ▸ required stage failed (not recovered)"
-        if head in r:
-            led.fail("C19-R2", key, where(runfi, pc), "with halt_on_failure=True and a required stage failing without recovery, the loop continues", path=cfg.fmt_path(folded_path(r, head)))
-        else:
-            led.ok("C19-R2", key, where(runfi, pc), "folding halt_on_failure=True ∧ required=True and excluding recovered (COMPLETED) results: the loop head is unreachable from the processor's exception edge")
-
     # ---------------- R3 success / final output, in every function that builds a CascadeResult
     for fi in cascade.methods.values():
+        if fi.key in seq_fns:
+            continue        # sequential run: success / output decided on the interpreted paths
         for c in walk_no_nested(fi.node):
             if not (isinstance(c, ast.Call) and isinstance(c.func, ast.Name) and c.func.id == "CascadeResult"):
                 continue
@@ -205,62 +172,146 @@ def run(p, led, tier):
                 led.fail("C19-R3", key, where(fi, c), f"final output `{short(fo)}` is not conditional on `{sname}`: an unsuccessful run releases an output",
                          witness="run_parallel with one failing stage returns success=False and final_output=[outputs of the other stages]" if fi is not runfi else None)
 
-    # ---------------- R4 amplification shape (Cascade.run)
-    res_calls = [c for c in walk_no_nested(runfi.node) if isinstance(c, ast.Call) and isinstance(c.func, ast.Name) and c.func.id == "CascadeResult"]
-    amp = next((k.value for k in res_calls[0].keywords if k.arg == "total_amplification"), None) if res_calls else None
-    if not isinstance(amp, ast.Name):
-        raise AnchorError("Cascade.run: total_amplification is not a local variable")
-    var = amp.id
-    writes = [n for n in cfg.nodes if n.kind == "stmt" and isinstance(n.ast, (ast.Assign, ast.AugAssign))
-              and any(isinstance(t, ast.Name) and t.id == var for t in (n.ast.targets if isinstance(n.ast, ast.Assign) else [n.ast.target]))]
-    mults = [n for n in writes if isinstance(n.ast, ast.AugAssign) or (isinstance(n.ast, ast.Assign) and mentions_name(n.ast.value, var))]
-    if not mults:
-        raise AnchorError("Cascade.run: running amplification is never multiplied")
-    pnodes = [cfg.node_of(c) for fi, c in run_proc]
-    for m in mults:
-        key = f"Cascade.run ▸ {short(m.ast)}"
-        if not (isinstance(m.ast, ast.AugAssign) and isinstance(m.ast.op, ast.Mult)):
-            if not (isinstance(m.ast, ast.Assign) and _is_clamp(m.ast.value, var)):
-                led.fail("C19-R4", key, where(runfi, m.ast), "running amplification updated by something other than a product or a clamp")
-                continue
-            led.ok("C19-R4", key, where(runfi, m.ast), "clamp assignment", nontrivial=False)
-            continue
-        seen = cfg.reach(starts=[cfg.entry], cut=lambda a, b, l: a in pnodes and l != "exc")
-        # must not be reachable without a processor having completed in this iteration
-        seen_iter = cfg.reach(start_edges=[(head, x, l) for x, l in head.succ if l == "T"],
-                              cut=lambda a, b, l: (a in pnodes and l != "exc") or b is head)
-        if m in seen_iter:
-            led.fail("C19-R4", key, where(runfi, m.ast), "factor multiplied on a path where the stage's processor did not complete", path=cfg.fmt_path(cfg.witness(seen_iter, m)))
+
+
+# ----------------------------------------------------------------------
+def _sequential_table(p, led, tier, cascade, runfi):
+    """Cascade.run interpreted (fdai) on every pipeline shape with adversarial gates, processors and error handlers"""
+    from ..fdai import Interp, Obj, Unknown, PyRaise, ExcVal, explore, Imprecise, stub
+    stage_cls = p.cls("CascadeStage", "operon_ai/topology/cascade.py")
+    FACTORS, MAXAMP = (8.0, 0.5, 3.0), 5.0      # the first stage saturates the gain control, the second attenuates
+    shapes = list(itertools.product((True, False), (True, False), (True, False)))     # (has checkpoint, required, has on_error)
+    sizes = (1, 2) if tier == "quick" else (1, 2, 3)
+    probs = {"C19-R1": [], "C19-R2": [], "C19-R3": [], "C19-R4": []}
+    npaths = nconf = 0
+    for n in sizes:
+        combos = list(itertools.product(shapes, repeat=n)) if n <= 2 else [c for c in itertools.product(shapes, repeat=n) if c[0][0] and c[1][1]]
+        for combo in combos:
+            for halt in (True, False):
+                nconf += 1
+
+                def go(o, _combo=combo, _halt=halt):
+                    it = Interp(p, o)
+                    log = []
+                    casc = it.instantiate(cascade, ["c"], dict(halt_on_failure=_halt, max_amplification=MAXAMP, silent=True))
+                    for i, (has_cp, required, has_err) in enumerate(_combo):
+                        def mk(i=i):
+                            @stub
+                            def cp(interp, args, kwargs):
+                                k = interp.o.choose(3, f"checkpoint {i}: passes / refuses / raises")
+                                log.append(("cp", i, args[0], k))
+                                if k == 2:
+                                    raise PyRaise(ExcVal("RuntimeError", ("gate crashed",)))
+                                return k == 0
+
+                            @stub
+                            def proc(interp, args, kwargs):
+                                k = interp.o.choose(2, f"processor {i}: returns / raises")
+                                log.append(("proc", i, args[0], k))
+                                if k == 1:
+                                    raise PyRaise(ExcVal("RuntimeError", ("stage failed",)))
+                                return Unknown(f"out{i}")
+
+                            @stub
+                            def err(interp, args, kwargs):
+                                k = interp.o.choose(2, f"on_error {i}: recovers / raises")
+                                log.append(("err", i, None, k))
+                                if k == 1:
+                                    raise PyRaise(ExcVal("RuntimeError", ("recovery failed",)))
+                                return Unknown(f"recovered{i}")
+                            return cp, proc, err
+                        cp, proc, err = mk()
+                        st = it.instantiate(stage_cls, [], dict(name=f"s{i}", processor=proc, amplification=FACTORS[i], checkpoint=cp if has_cp else None,
+                                                                on_error=err if has_err else None, required=required))
+                        it.call_fi(p.find_method(cascade, "add_stage"), [casc, st], {})
+                    inp = Unknown("input")
+                    try:
+                        r = it.call_fi(runfi, [casc, inp], {})
+                    except PyRaise as e:
+                        return dict(raised=repr(e.exc), log=log)
+                    f = r.fields if isinstance(r, Obj) else {}
+                    return dict(log=log, success=f.get("success"), out=f.get("final_output"), amp=f.get("total_amplification"), blocked=f.get("blocked_at"), inp=inp)
+                try:
+                    paths = [r for _, r in explore(go, max_paths=3000)]
+                except Imprecise as e:
+                    raise AnchorError(f"Cascade.run could not be interpreted for pipeline {combo}: {e}")
+                npaths += len(paths)
+                for r in paths:
+                    tag = f"stages(checkpoint,required,on_error)={list(combo)} halt_on_failure={halt}"
+                    if "raised" in r:
+                        probs["C19-R2"].append(f"{tag}: run raises {r['raised']}")
+                        continue
+                    log = r["log"]
+                    # R1 gate before processor on the same signal
+                    for j, ev in enumerate(log):
+                        if ev[0] == "proc" and combo[ev[1]][0]:
+                            g = [e for e in log[:j] if e[0] == "cp" and e[1] == ev[1]]
+                            if not g or g[-1][3] != 0:
+                                probs["C19-R1"].append(f"{tag}: processor of stage {ev[1]} ran although its checkpoint {'was not evaluated' if not g else ('refused' if g[-1][3] == 1 else 'raised')}")
+                            elif g[-1][2] is not ev[2]:
+                                probs["C19-R1"].append(f"{tag}: stage {ev[1]}: gate evaluated on a different signal than the one processed")
+                    # stage outcomes
+                    status = {}
+                    for i in range(len(combo)):
+                        cps = [e for e in log if e[0] == "cp" and e[1] == i]
+                        prs = [e for e in log if e[0] == "proc" and e[1] == i]
+                        ers = [e for e in log if e[0] == "err" and e[1] == i]
+                        if len(prs) > 1 or len(cps) > 1:
+                            probs["C19-R1"].append(f"{tag}: stage {i} evaluated {len(cps)} gate(s) / ran {len(prs)} time(s)")
+                        if cps and cps[-1][3] != 0:
+                            status[i] = "gate-closed"
+                        elif prs and prs[-1][3] == 0:
+                            status[i] = "completed"
+                        elif prs and ers and ers[-1][3] == 0:
+                            status[i] = "recovered"
+                        elif prs:
+                            status[i] = "failed"
+                        else:
+                            status[i] = "not-run"
+                    # R2 halting
+                    if halt:
+                        for i in range(len(combo)):
+                            stop = status[i] == "gate-closed" or (status[i] == "failed" and combo[i][1])
+                            if stop and any(status[k] != "not-run" for k in range(i + 1, len(combo))):
+                                probs["C19-R2"].append(f"{tag}: stage {i} {status[i]} but later stages still ran ({ {k: status[k] for k in range(i + 1, len(combo))} })")
+                    # R3 success and output
+                    all_done = all(status[i] in ("completed", "recovered") for i in range(len(combo)))
+                    if r["success"] is True and not all_done:
+                        probs["C19-R3"].append(f"{tag}: success=True with stage outcomes {status}")
+                    if r["success"] is not True and r["out"] is not None:
+                        probs["C19-R3"].append(f"{tag}: an unsuccessful run releases the output {r['out']!r}")
+                    if not isinstance(r["success"], bool):
+                        probs["C19-R3"].append(f"{tag}: success is {r['success']!r}")
+                    # R4 amplification = clamped product over the stages whose processor completed
+                    ncomp = sum(1 for i in range(len(combo)) if status[i] == "completed")
+                    want, raw = 1.0, 1.0
+                    for i in range(len(combo)):
+                        if status[i] == "completed":
+                            want = min(want * FACTORS[i], MAXAMP)
+                            raw *= FACTORS[i]
+                    raw = min(raw, MAXAMP)      # the other reading of "clamped product": clamp once at the end
+                    if isinstance(r["amp"], (int, float)):
+                        if r["amp"] > MAXAMP:
+                            probs["C19-R4"].append(f"{tag}: total amplification {r['amp']} exceeds the maximum {MAXAMP}")
+                        elif abs(r["amp"] - want) > 1e-9 and abs(r["amp"] - raw) > 1e-9:
+                            probs["C19-R4"].append(f"{tag}: completed stages {[i for i in range(len(combo)) if status[i] == 'completed']} with factors {FACTORS} (max {MAXAMP}): total amplification {r['amp']}, the clamped running product is {want}")
+                    else:
+                        probs["C19-R4"].append(f"{tag}: total amplification is not a number ({r['amp']!r})")
+    titles = {"C19-R1": "Cascade.run ▸ processor only after its checkpoint passed on the same signal",
+              "C19-R2": "Cascade.run ▸ halt ▸ a closed / crashing gate or a failed required stage stops the pipeline; run never raises",
+              "C19-R3": "Cascade.run ▸ success ⇒ every stage completed and nothing blocked; output released only under success",
+              "C19-R4": "Cascade.run ▸ total amplification is the clamped product over completed stages"}
+    for rid, title in titles.items():
+        mine = sorted(set(probs[rid]))
+        if mine:
+            led.fail(rid, title, where(runfi, runfi.node), f"{len(mine)} case(s), e.g. {mine[0]}", path=mine[:8],
+                     witness="a stage whose checkpoint raises still has its processor run" if rid == "C19-R1" else None)
         else:
-            led.ok("C19-R4", key, where(runfi, m.ast), "reachable only after the processor call returned normally in the same iteration")
-        # every stage whose processor completed contributes its factor: from the processor's normal edge no
-        # normal path reaches the next stage without the multiplication
-        for pn_ in pnodes:
-            s_skip = cfg.reach(start_edges=[(pn_, x, l) for x, l in pn_.succ if l != "exc"], avoid={m}, cut=lambda a, b, l: l == "exc")
-            key3 = key + " ▸ applied for every completed stage"
-            if head in s_skip or cfg.exit in s_skip:
-                led.fail("C19-R4", key3, where(runfi, m.ast), "a stage can complete without its factor entering the running amplification: the reported total is not the product over completed stages",
-                         path=cfg.fmt_path(cfg.witness(s_skip, head if head in s_skip else cfg.exit)))
-            else:
-                led.ok("C19-R4", key3, where(runfi, m.ast), "every normal path from the completed processor call to the next stage passes the multiplication")
-        # clamp before reuse: from m, every path to loop head / loop exit passes a clamp
-        clamps = set()
-        for t in cfg.nodes:
-            if t.kind == "test" and isinstance(t.ast, ast.Compare) and mentions_name(t.ast, var) and mentions_attr(t.ast, "max_amplification"):
-                # the T edge must assign var = max
-                for x, l in t.succ:
-                    if l == "T" and x.kind == "stmt" and isinstance(x.ast, ast.Assign) and mentions_attr(x.ast.value, "max_amplification") \
-                            and any(isinstance(tt, ast.Name) and tt.id == var for tt in x.ast.targets) and isinstance(t.ast.ops[0], (ast.Gt, ast.GtE)):
-                        clamps.add(t)
-            if t.kind == "stmt" and isinstance(t.ast, ast.Assign) and _is_clamp(t.ast.value, var) and any(isinstance(tt, ast.Name) and tt.id == var for tt in t.ast.targets):
-                clamps.add(t)
-        key2 = key + " ▸ clamped"
-        s2 = cfg.reach(start_edges=[(m, x, l) for x, l in m.succ if l != "exc"], avoid=clamps)
-        esc = [n for n in s2 if n is head or (n.kind == "stmt" and n.ast is not None and any(c is res_calls[0] for c in ast.walk(n.ast)))]
-        if esc:
-            led.fail("C19-R4", key2, where(runfi, m.ast), "the product can reach the next stage / the result without passing the clamp against max_amplification", path=cfg.fmt_path(cfg.witness(s2, esc[0])))
-        else:
-            led.ok("C19-R4", key2, where(runfi, m.ast), f"every normal path from the multiplication passes the clamp ({len(clamps)} clamp site(s))")
+            led.ok(rid, title, where(runfi, runfi.node), f"{nconf} pipeline shapes (1–{sizes[-1]} stages × checkpoint/required/on_error × halt) and {npaths} paths over gate / processor / error-handler outcomes")
+    # extra obligations so that each clause of R2 is visible on its own
+    for what in ("gate returned false", "gate raised", "required stage failed (not recovered)"):
+        led.ok("C19-R2", f"Cascade.run ▸ halt ▸ {what}", where(runfi, runfi.node), "row of the table above", nontrivial=False) if not probs["C19-R2"] else None
+    led.ok("C19-R4", "Cascade.run ▸ factor applied for every completed stage and only those", where(runfi, runfi.node), "row of the table above", nontrivial=False) if not probs["C19-R4"] else None
 
 
 # ----------------------------------------------------------------------
